@@ -136,6 +136,7 @@ let run_case ~(v0 : bool) (c : case) =
     match w with
     | "pool" :: ks -> kinds := ks
     | "ext" :: es -> exts := es
+    | "cbprobe" :: _ -> ()
     | "fail" :: os -> fails := L.map int_of_string os
     | ["failfrom"; n] -> from := Some (int_of_string n)
     | _ ->
